@@ -38,6 +38,13 @@ FIELDS = [
      'ark_test_curves::secp256k1::FqConfig'),
     (15, 'tc_mnt4_753_fr', 12, 41898490967918953402344214791240637128170709919953949071783502921025352812571106773058893763790338921418070971888458477323173057491593855069696241854796396165721416325350064441470418137846398469611935719059908164220784476160001, 17, (5, 2),
      'ark_test_curves::mnt4_753::FrConfig'),
+    # two-adicity at and beyond one limb: p - 1 has >= 64 trailing zero bits (the derive macro strips the factors of two of
+    # p - 1 in arbitrary precision; a shortcut through the lowest 64-bit digit leaves the trace even)
+    (16, 'ta64', 2, 25 * 2**64 + 1, 3, None, 'derive'),                                # two-adicity exactly 64
+    (17, 'ta66', 2, (2**64 - 28) * 2**64 + 1, 7, (3, 1), 'derive'),                    # 128 bits, no spare bit, s = 66
+    (18, 'ta70', 2, 279 * 2**70 + 1, 7, (3, 2), 'derive'),                             # s = 70, 3-adic small subgroup
+    (19, 'ta130', 3, 205 * 2**130 + 1, 3, None, 'derive'),                             # s = 130 (two zero limbs), N = 3
+    (20, 'stark252', 4, 2**251 + 17 * 2**192 + 1, 3, None, 'derive'),                  # s = 192
 ]
 BIGINT_NS = [1, 2, 3, 4, 6, 12]
 
